@@ -11,7 +11,7 @@ func init() {
 // a built-in (or stateless-declared) operator whose operands all have one and
 // that succeeds has one; an and/or with a deciding constant operand has one;
 // variables, `if` and undeclared custom operators never do.
-func (w *vfWorld) refConstVal(n *refNode, stateless bool, folding bool) (Value, bool) {
+func (w *vfWorld) refConstVal(n *refNode, stateless string, folding bool) (Value, bool) {
 	if n.leaf {
 		if n.isLit {
 			return n.lit, true
@@ -24,7 +24,7 @@ func (w *vfWorld) refConstVal(n *refNode, stateless bool, folding bool) (Value, 
 	if !folding || n.op == "if" {
 		return nil, false
 	}
-	if _, custom := w.ops[n.op]; custom && !stateless {
+	if _, custom := w.ops[n.op]; custom && !vfDeclared(stateless, n.op) {
 		return nil, false
 	}
 	vals := make([]Value, len(n.kids))
@@ -64,7 +64,7 @@ func (w *vfWorld) refConstVal(n *refNode, stateless bool, folding bool) (Value, 
 }
 
 // refMustRemain collects the variables that folding is not allowed to remove.
-func (w *vfWorld) refMustRemain(n *refNode, stateless, folding bool, out map[string]bool) {
+func (w *vfWorld) refMustRemain(n *refNode, stateless string, folding bool, out map[string]bool) {
 	if n.leaf {
 		if !n.isLit {
 			if _, isConst := w.consts[n.atom]; !isConst {
@@ -81,34 +81,104 @@ func (w *vfWorld) refMustRemain(n *refNode, stateless, folding bool, out map[str
 	}
 }
 
-// VerifC10: args = [source, stateless ("" | "pq"), configs].
+// vfDeclared: is the operator (p, q, z) listed in the stateless declaration string?
+func vfDeclared(stateless string, op string) bool {
+	for i := 0; i < len(stateless); i++ {
+		if stateless[i] == op[0] && len(op) == 1 {
+			return true
+		}
+	}
+	return false
+}
+
+// refEvalFolded is the documented run-time meaning of a program compiled with
+// constant folding (orders preserved, i.e. without Reordering / FastEvaluation):
+// a sub-expression with a compile-time value (refConstVal) yields it without being
+// evaluated; everything else is evaluated left to right with short-circuit, so a
+// failing constant sub-expression fails at run time exactly when it is reached.
+func (w *vfWorld) refEvalFolded(n *refNode, stateless string, folding bool) (Value, error) {
+	if v, isC := w.refConstVal(n, stateless, folding); isC {
+		return v, nil
+	}
+	if n.leaf {
+		return w.refLeaf(n)
+	}
+	switch {
+	case n.op == "if":
+		c, err := w.refEvalFolded(n.kids[0], stateless, folding)
+		if err != nil {
+			return nil, err
+		}
+		b, ok := c.(bool)
+		if !ok {
+			return nil, errRefBuiltin
+		}
+		if b {
+			return w.refEvalFolded(n.kids[1], stateless, folding)
+		}
+		return w.refEvalFolded(n.kids[2], stateless, folding)
+	case refIsAnd(n.op) || refIsOr(n.op):
+		isAnd := refIsAnd(n.op)
+		for _, k := range n.kids {
+			v, err := w.refEvalFolded(k, stateless, folding)
+			if err != nil {
+				return nil, err
+			}
+			b, ok := v.(bool)
+			vfAssume(ok)
+			if isAnd && !b {
+				return false, nil
+			}
+			if !isAnd && b {
+				return true, nil
+			}
+		}
+		return isAnd, nil
+	}
+	args := make([]Value, len(n.kids))
+	for i, k := range n.kids {
+		v, err := w.refEvalFolded(k, stateless, folding)
+		if err != nil {
+			return nil, err
+		}
+		args[i] = v
+	}
+	return w.refApply(n.op, args)
+}
+
+// VerifC10: args = [source, stateless declaration (subset of "pqz"), configs, failure style ("" | "value")].
 func VerifC10(args []string) {
 	src, stateless := args[0], args[1]
 	tree, ok := refRead(src)
 	vfAssert(ok, "harness: skeleton readable by the reference reader")
 	w := newWorld(tree, "")
 	w.opsFail = true
+	w.failValue = len(args) > 3 && args[3] == "value"
 	for _, opts := range vfConfigs(args, 2) {
 		conf := w.config("keys", opts)
-		if stateless == "pq" {
-			conf.StatelessOperators = []string{"p", "q", "ghost"}
+		conf.StatelessOperators = []string{"ghost"}
+		for _, name := range []string{"p", "q", "z"} {
+			if vfDeclared(stateless, name) {
+				conf.StatelessOperators = append(conf.StatelessOperators, name)
+			}
 		}
-		p0, q0 := w.pCalls, w.qCalls
+		p0, q0, z0 := w.pCalls, w.qCalls, w.zCalls
 		e, err := Compile(conf, src)
 		// (3) failing constant sub-expressions never fail the compilation
 		vfAssert(err == nil && e != nil, "Compile fails on a well-formed expression (constant sub-expressions may fail only at run time) under "+opts)
 		// (1) undeclared operators are never invoked at compile time
-		if stateless == "" {
-			vfReach("undeclared")
-			vfAssert(w.pCalls == p0 && w.qCalls == q0, "a registered operator not declared stateless was invoked during Compile under "+opts)
-		} else if opts[0] == '0' {
-			vfAssert(w.pCalls == p0 && w.qCalls == q0, "an operator was invoked during Compile although ConstantFolding is off under "+opts)
+		vfReach("undeclared")
+		vfAssert(vfDeclared(stateless, "p") || w.pCalls == p0, "registered operator p, not declared stateless, was invoked during Compile under "+opts)
+		vfAssert(vfDeclared(stateless, "q") || w.qCalls == q0, "registered operator q, not declared stateless, was invoked during Compile under "+opts)
+		vfAssert(vfDeclared(stateless, "z") || w.zCalls == z0, "registered operator z, not declared stateless, was invoked during Compile under "+opts)
+		if opts[0] == '0' {
+			vfAssert(w.pCalls == p0 && w.qCalls == q0 && w.zCalls == z0, "an operator was invoked during Compile although ConstantFolding is off under "+opts)
 		}
 		otree, ok := refRead(Dump(e))
 		vfAssert(ok, "Dump output readable by the reference reader under "+opts)
 		// (5) variables survive unless a deciding constant operand of an enclosing and/or removes them
 		must := map[string]bool{}
-		w.refMustRemain(tree, stateless == "pq", opts[0] == '1', must)
+		w.refMustRemain(tree, stateless, opts[0] == '1', must)
 		var leaves []*refNode
 		refLeaves(otree, &leaves)
 		present := map[string]bool{}
@@ -123,14 +193,23 @@ func VerifC10(args []string) {
 		}
 		// (2) every evaluation performs exactly the calls of the optimised tree: nothing is baked in
 		for k := 0; k < 2; k++ {
-			pc, qc := w.pCalls, w.qCalls
+			pc, qc, zc := w.pCalls, w.qCalls, w.zCalls
 			got, gerr := e.Eval(&Ctx{VariableFetcher: &vfFetcher{w: w}})
-			dp, dq := w.pCalls-pc, w.qCalls-qc
-			pc, qc = w.pCalls, w.qCalls
+			dp, dq, dz := w.pCalls-pc, w.qCalls-qc, w.zCalls-zc
+			pc, qc, zc = w.pCalls, w.qCalls, w.zCalls
 			want, werr := w.refEval(otree)
-			rp, rq := w.pCalls-pc, w.qCalls-qc
+			rp, rq, rz := w.pCalls-pc, w.qCalls-qc, w.zCalls-zc
 			vfReach("evaluated")
-			vfAssert(dp == rp && dq == rq, "evaluation does not invoke the registered operators as often as the optimised tree requires under "+opts)
+			vfAssert(dp == rp && dq == rq && dz == rz, "evaluation does not invoke the registered operators as often as the optimised tree requires under "+opts)
+			// the run-time meaning of the SOURCE under the documented folding rule (orders preserved)
+			if opts[2] == '0' && opts[3] == '0' {
+				fwant, ferr := w.refEvalFolded(tree, stateless, opts[0] == '1')
+				vfReach("folded-semantics")
+				vfAssert((gerr == nil) == (ferr == nil), "a failing sub-expression does not surface from Eval exactly when it is reached (or a succeeding one fails) under "+opts)
+				if gerr == nil && ferr == nil {
+					vfAssert(got == fwant, "Eval differs from the documented meaning of the folded source under "+opts)
+				}
+			}
 			// (4) a failure surfaces exactly when the optimised tree reaches it
 			if opts[2] == '0' {
 				vfAssert((gerr == nil) == (werr == nil), "Eval and the optimised tree fail together under "+opts)
